@@ -176,6 +176,11 @@ def run_session(payloads, client_kw=None, server_kw=None, chunker=None,
     except (OSError, asyncio.IncompleteReadError) as exc:
         out['outcome'] = 'error:' + type(exc).__name__
         out['exc'] = exc
+    except Exception as exc:            # pylint: disable=broad-except
+        # anything else the session raises is an outcome to be judged, not
+        # a failure of the harness
+        out['outcome'] = 'error!:' + type(exc).__name__
+        out['exc'] = exc
     try:
         loop.run_until_idle()
     except BaseException:               # pylint: disable=broad-except
